@@ -96,6 +96,7 @@ structure WF (p : Params) (e : Emit) (M : State) : Prop where
   var : ∀ i, i < p.n → VarOK p e.ctx M i (e.ctx.var i)
   inv : ∀ g r j, g < 4 → r < 32 → physAt e.ctx g r = some j →
     j < p.n ∧ groupOf (e.ctx.var j).cur.regType = g ∧ (e.ctx.var j).cur.regId = r
+  hss : e.ctx.hasStackSrc = false
 
 theorem moveTok_var (vis : List VarInfo) (t : Tok) (k : Ext) (c w : Nat) : (moveTok vis t k c w).var = t.var := by
   unfold moveTok; split <;> rfl
